@@ -144,7 +144,7 @@ Section NewPending.
       + apply in_app_last in Hv. destruct Hv as [Hv| ->].
         * pose proof (Hvalu c v Hsn Hv) as Ho. unfold vd. rewrite np_root_old, np_vget_old, np_home_old by exact Ho.
           apply Iund; assumption.
-        * split; [unfold is_root; rewrite np_vget_new; reflexivity|]. intros _. unfold home'. rewrite Nat.eqb_refl. reflexivity.
+        * split; [unfold is_root; rewrite np_vget_new; reflexivity|]. unfold home'. rewrite Nat.eqb_refl. split; [intros _; reflexivity|lia].
       + pose proof (Hvalu s v Hsn Hv) as Ho. unfold vd. rewrite np_root_old, np_vget_old, np_home_old by exact Ho.
         apply Iund; assumption.
     - intros s Hs. rewrite np_und. destruct (Nat.eqb_spec s c) as [->|Hne]; [|apply Iunodup; exact Hs].
@@ -281,7 +281,7 @@ Proof.
     destruct (find (fun v => vname (vget st v) =? x) (sundeclared (sc_of st c))) as [v|] eqn:Eu.
     + (* already used in the current scope, or a declaration passed through it *)
       apply find_some_name in Eu. destruct Eu as [Hin Hname].
-      destruct (I_und _ _ _ _ _ I c v Hcs Hin) as (Hroot & Hh).
+      destruct (I_und _ _ _ _ _ I c v Hcs Hin) as (Hroot & Hh & _).
       assert (Hv : (v < nvars st)%nat) by (apply (I_valid _ _ _ _ _ I c v Hc); right; exact Hin).
       set (st' := vset st v (set_uses (vget st v) (u16 (vuses (vget st v) + 1)))).
       assert (Hsh : same_shape st st') by apply same_shape_set_uses.
